@@ -64,6 +64,7 @@ NodeUnits(cfg, nd) ==
   \o (IF nd.post = "none" THEN <<>> ELSE <<Unit(")", IF nd.post = "val" THEN {"I"} ELSE {"T"}, 1, "")>>)
 RECURSIVE UnitsOf(_, _)
 UnitsOf(cfg, nds) == IF Len(nds) = 0 THEN <<>> ELSE NodeUnits(cfg, nds[1]) \o UnitsOf(cfg, Tail(nds))
+NilSrc(cfg, nd) == [Unit(nd.n, Range(nd.nat), nd.oc, FailOf(cfg, nd.n)) EXCEPT !.op = "nilsrc"]
 OutKey(cfg, i) == IF cfg.dup THEN "k" ELSE cfg.nodes[i].n
 Prog(cfg) ==
   LET N == cfg.nodes IN
@@ -82,6 +83,11 @@ Prog(cfg) ==
     \* the model is type-blind here, the harness's consumer checks the dynamic type)
     [] cfg.shape \in {"nmap", "nmapn"} -> <<[op |-> "mapsrc", u |-> Unit(N[1].n, Range(N[1].nat), N[1].oc, FailOf(cfg, N[1].n))],
                                [op |-> "join", u |-> Unit(N[2].n, Range(N[2].nat), N[2].oc, FailOf(cfg, N[2].n)), kx |-> "x", ky |-> "y"]>>
+    \* nil interface values: a "nil source" consumes its input and returns nil (one nil value / oc nil chunks)
+    [] cfg.shape = "nil1" -> <<NilSrc(cfg, N[1])>>
+    [] cfg.shape \in {"nil2", "nilif"} -> <<NilSrc(cfg, N[1]), NilSrc(cfg, N[2])>>
+    [] cfg.shape = "nilin" -> NodeUnits(cfg, N[1])
+    [] cfg.shape = "nilbr" -> <<NilSrc(cfg, N[1]), [op |-> "branch"]>> \o NodeUnits(cfg, NodeByName(cfg, cfg.pick))
     [] cfg.shape = "branch" -> NodeUnits(cfg, N[1]) \o <<[op |-> "branch"]>> \o NodeUnits(cfg, NodeByName(cfg, cfg.pick))
     [] cfg.shape = "keys" -> IF Len(N) = 1 THEN <<[op |-> "inkey", k |-> "x"]>> \o NodeUnits(cfg, N[1]) \o <<[op |-> "outkey", k |-> "out"]>>
                              ELSE <<[op |-> "inkey", k |-> "x"]>> \o NodeUnits(cfg, N[1]) \o <<[op |-> "outkey", k |-> "mid"], [op |-> "inkey", k |-> "mid"]>>
@@ -167,6 +173,9 @@ StepV(e, x, Fx) ==
   IF ~x.ok THEN x
   ELSE CASE e.op = "unit" -> (LET r == RunUnitsV(<<e>>, x.m[""]) IN IF r.ok THEN ValOK(Bare(r.s)) ELSE ValFail(r.why))
          [] e.op = "branch" -> x                                      \* the condition reads a copy
+         \* a nil interface value is an ordinary value of an interface-typed edge: boxed into `any` it is the zero value of the
+         \* declared type again at the next node, at a branch and as the graph's result (written "")
+         [] e.op = "nilsrc" -> IF e.fail # "" THEN ValFail("node-failure") ELSE ValOK(Bare(""))
          [] e.op = "inkey" -> IF e.k \in DOMAIN x.m THEN ValOK(Bare(x.m[e.k])) ELSE ValFail("cannot find input key")
          [] e.op = "outkey" -> ValOK((e.k :> x.m[""]))
          [] e.op = "par" ->
@@ -186,6 +195,8 @@ StepS(e, x, Fx) ==
   IF ~x.ok THEN x
   ELSE CASE e.op = "unit" -> (LET r == RunUnitsS(<<e>>, Strs(x.cs)) IN IF r.ok THEN StrOK(Wrap("", r.ss)) ELSE StrFail(r.why))
          [] e.op = "branch" -> x
+         [] e.op = "nilsrc" -> IF e.fail # "" THEN StrFail("node-failure")
+                               ELSE StrOK(Wrap("", IF FormUsed(e, TRUE) \in {"T", "S"} THEN [i \in 1..e.oc |-> ""] ELSE <<"">>))   \* oc nil chunks / one boxed nil
          [] e.op = "inkey" -> LET sel == SelectSeq(x.cs, LAMBDA c : e.k \in DOMAIN c)          \* chunks without the key are skipped
                               IN StrOK([i \in 1..Len(sel) |-> Bare(sel[i][e.k])])
          [] e.op = "outkey" -> StrOK(Wrap(e.k, Strs(x.cs)))                                   \* withKey on every chunk
@@ -211,7 +222,7 @@ vars == <<cfg, phase, pos, acc>>
 
 NoFail == [n |-> "", how |-> ""]
 EmptyCfg == [shape |-> "", nodes |-> <<>>, in |-> <<>>, dup |-> FALSE, pick |-> "", bstrm |-> FALSE, z |-> FALSE, fail |-> NoFail, anyout |-> FALSE]
-NodesWanted(sh) == CASE sh = "fank" -> 4..MaxNodes [] sh \in {"fmap", "nmap", "nmapn"} -> {2} [] sh = "chain" -> 1..MaxNodes [] sh = "nested" -> 2..MaxNodes [] sh = "fan2" -> {2} [] sh = "fan3" -> {3}
+NodesWanted(sh) == CASE sh \in {"nil1", "nilin"} -> {1} [] sh \in {"nil2", "nilif"} -> {2} [] sh = "nilbr" -> {3} [] sh = "fank" -> 4..MaxNodes [] sh \in {"fmap", "nmap", "nmapn"} -> {2} [] sh = "chain" -> 1..MaxNodes [] sh = "nested" -> 2..MaxNodes [] sh = "fan2" -> {2} [] sh = "fan3" -> {3}
                      [] sh = "branch" -> {3} [] sh = "keys" -> 1..(IF MaxNodes > 2 THEN 2 ELSE MaxNodes)
 HandlerOK(sh) == sh \in {"chain"}
 Init == cfg = EmptyCfg /\ phase = "shape" /\ pos = 0 /\ acc = <<>>
@@ -229,11 +240,11 @@ AddNode(nat, oc, pre, post) ==
   /\ (cfg.shape = "fank" => Cardinality(nat) = 1)
   /\ cfg' = [cfg EXCEPT !.nodes = Append(@, [n |-> Names[Len(cfg.nodes) + 1], nat |-> SetToSeq(nat), oc |-> oc, pre |-> pre, post |-> post])]
   /\ UNCHANGED <<phase, pos, acc>>
-Executed(c) == IF c.shape = "branch" THEN {"a", c.pick} ELSE {c.nodes[i].n : i \in 1..Len(c.nodes)}
+Executed(c) == IF c.shape \in {"branch", "nilbr"} THEN {"a", c.pick} ELSE {c.nodes[i].n : i \in 1..Len(c.nodes)}
 Finish(in, dup, pick, bstrm, z, f, anyout) ==
   /\ phase = "nodes" /\ Len(cfg.nodes) \in NodesWanted(cfg.shape)
   /\ (dup => cfg.shape \in {"fan2", "fan3"} /\ AllowDup)
-  /\ (cfg.shape = "branch" => pick \in {"b", "c"}) /\ (cfg.shape # "branch" => pick = "" /\ ~bstrm)
+  /\ (cfg.shape \in {"branch", "nilbr"} => pick \in {"b", "c"}) /\ (cfg.shape \notin {"branch", "nilbr"} => pick = "" /\ ~bstrm)
   /\ (z => cfg.shape = "keys")
   /\ (anyout => AllowAny /\ cfg.shape = "chain" /\ Len(cfg.nodes) >= 2 /\ Range(cfg.nodes[1].nat) \in {{"I"}, {"C"}} /\ cfg.nodes[1].post = "none")
   /\ (f.n # "" => AllowFail /\ ~dup /\ f.n \in Executed([cfg EXCEPT !.pick = pick])
@@ -242,7 +253,8 @@ Finish(in, dup, pick, bstrm, z, f, anyout) ==
   /\ phase' = "run" /\ pos' = 1
   \* the four paradigms start from: Invoke the concatenated value; Stream the boxed value (streamByTransform); Collect and
   \* Transform the chunks themselves.  In the keys shape the bare input is the value under key "x" (plus an unrelated chunk).
-  /\ LET wrapIn(ss) == IF cfg.shape = "keys" THEN (IF z THEN <<("z" :> "q")>> ELSE <<>>) \o Wrap("x", ss) ELSE Wrap("", ss)
+  /\ LET wrapIn(ss) == IF cfg.shape = "nilin" THEN [i \in 1..Len(ss) |-> Bare("")]        \* the graph input is nil: one nil value / Len(in) nil chunks
+                       ELSE IF cfg.shape = "keys" THEN (IF z THEN <<("z" :> "q")>> ELSE <<>>) \o Wrap("x", ss) ELSE Wrap("", ss)
          whole == ConcatChunks(wrapIn(in))
      IN acc' = [I |-> ValOK(whole), S |-> StrOK(Box(whole)), C |-> StrOK(wrapIn(in)), T |-> StrOK(wrapIn(in))]
 FailChoices == {NoFail} \cup (IF AllowFail THEN {[n |-> Names[i], how |-> h] : i \in 1..3, h \in {"call", "item", "eof"}} ELSE {})
@@ -274,7 +286,7 @@ LawHolds == phase = "done" => (Predicted = {} \/ (cfg.dup /\ Predicted = {"failu
 RECURSIVE FlatUnits(_)
 FlatUnits(p) == IF Len(p) = 0 THEN <<>>
                 ELSE (IF p[1].op = "unit" THEN <<p[1]>> ELSE IF p[1].op = "par" THEN FlattenSeq([i \in 1..Len(p[1].bs) |-> p[1].bs[i].us])
-                      ELSE IF p[1].op \in {"mapsrc", "join"} THEN <<p[1].u>> ELSE <<>>) \o FlatUnits(Tail(p))
+                      ELSE IF p[1].op \in {"mapsrc", "join"} THEN <<p[1].u>> ELSE IF p[1].op = "nilsrc" THEN <<p[1]>> ELSE <<>>) \o FlatUnits(Tail(p))
 FormsOf(stream) == LET us == SelectSeq(FlatUnits(Prog(cfg)), LAMBDA u : u.n \notin {"(", ")"}) IN [i \in 1..Len(us) |-> us[i].n \o ":" \o FormUsed(us[i], stream)]
 Emit == phase = "done" =>
   PrintT(<<"CASE", ToJson([shape |-> cfg.shape, nodes |-> cfg.nodes, in |-> cfg.in, dup |-> cfg.dup, pick |-> cfg.pick, bstrm |-> cfg.bstrm,
